@@ -460,11 +460,20 @@ def oracle_c10(sc, tr):
         if gap < 3072:
             # an immediate retry is legitimate only to move on to another address: the attempt at a reached an
             # accessory that (after a slow pair-verify) answered with the wrong pairing id, and the attempt at b
-            # no longer offers that address
+            # no longer offers that address - unless the advertised address list was replaced at some point before
+            # (adopting it forgets the exclusions; the chain budget below still bounds such retries)
             wrong = [opened_host.get(e[2]) for e in verif_evs if a <= e[0] < b and e[3] == "wrongid"]
             cands_b = [h for x in tr if x[1] == "dial" and x[0] == b for h in x[2]]
-            if not wrong or any(h in cands_b for h in wrong):
+            relisted = any(c[1] == "zeroconf" and c[0] <= b for c in sc.get("controls", []))
+            if not wrong or (any(h in cands_b for h in wrong) and not relisted):
                 bad.append(("gap-too-short", f"attempts at {a} and {b} only {gap} ticks apart"))
+    # ... and a chain of such immediate retries is as bounded as the dials inside one tick
+    chain = 0
+    for a, b in zip(dts, dts[1:]):
+        chain = chain + dial_ticks[b] if b - a < 3072 and not any(a <= x <= b for x in ext) else 0
+        if chain > nh_max * (nh_max + 1):
+            bad.append(("busy-loop", f"{chain} dials in a chain of immediate retries ending at tick {b} with {nh_max} hosts"))
+            break
     # a silent accessory cannot stall the connector: a pair-verify request that arrived at tick t is over by t + 30 s
     # - its connection closed, or in use (the pairing connected on it)
     closed_tick = {}
@@ -485,9 +494,15 @@ def oracle_c10(sc, tr):
     if end and not closes:
         e = end[-1]
         verifs = [x for x in tr if x[1] == "verify"]
-        last_auth = bool(verifs) and verifs[-1][3] == "auth" and not any(
-            c[0] > verifs[-1][0] for c in sc["controls"] if c[1] in ("ensure", "soon", "zeroconf"))
-        started = any(c[1] in ("ensure", "soon", "zeroconf") for c in sc["controls"])
+        # the last pair-verify ended with the authentication error (its answer arrives vdelay after the request; a
+        # request still in flight keeps the connector alive, so restarts only count from the answer on)
+        lv = verifs[-1] if verifs else None
+        lvd = _vdelay_of(sc, lv[2]) if lv else 0
+        last_auth = bool(lv) and lv[3] == "auth" and lvd < THIRTY_S and not any(
+            c[0] > lv[0] + lvd for c in sc["controls"] if c[1] in ("ensure", "soon", "zeroconf"))
+        # (a restart racing with that answer on one tick is the scheduler's choice: not judged)
+        race = bool(lv) and lv[3] == "auth" and 0 < lvd < THIRTY_S and any(c[0] == lv[0] + lvd for c in sc["controls"])
+        started = any(c[1] in ("ensure", "soon", "zeroconf") for c in sc["controls"]) and not race
         if started and not e[4] and e[5] == 0 and not last_auth:
             bad.append(("retries-stopped", f"disconnected at the end (tick {e[0]}) with no connector running"))
         # ... and that connector keeps attempting: the time since the last attempt is bounded like every other gap
